@@ -21,6 +21,7 @@ from sqlglot.time import format_time
 
 from vlib import corpus, fingerprint as fpm
 from vlib.grammar_core import statements
+from vlib.grammar_clauses import clause_statements
 from vlib.run import Ctx
 
 OPTSETS = {
@@ -89,7 +90,10 @@ def worker_a(shard, nshards, plan):
     logging.disable(logging.CRITICAL)
     res = {"evaluations": 0, "parsed": 0, "changed": set(), "violations": {}, "samples": [], "unparsed": 0}
     for dialect, k, optnames in plan:
-        items = statements(dialect, k) if k > 0 else operator_expressions(dialect, -k)
+        if k == "clauses":
+            items = [(len(tags), sql, tags) for sql, tags in clause_statements()]
+        else:
+            items = statements(dialect, k) if k > 0 else operator_expressions(dialect, -k)
         for i, (cost, sql, tags) in enumerate(items):
             if i % nshards != shard:
                 continue
@@ -302,6 +306,10 @@ def run(ctx: Ctx) -> None:
     else:
         for d in dialects:
             plan.append((d, 2, ("default", "pretty") if d in K2_QUICK else ("default",)))
+    # every subset of the optional clauses of every statement kind (SELECT, DELETE, UPDATE, INSERT, MERGE, CREATE, DROP, ALTER,
+    # set operations, window specifications, aggregates, joins, FROM items) in every dialect
+    for d in dialects:
+        plan.append((d, "clauses", ("default", "pretty") if (not quick or not d) else ("default",)))
     res = ctx.run_shards(worker_a, ctx.jobs * 2, plan)
     resc = ctx.run_shards(worker_c, ctx.jobs * 2, corpus.dialect_test_sql())
     viol, dropped = minimal_only(collect(res["violations"]))
@@ -335,6 +343,7 @@ def run(ctx: Ctx) -> None:
             "distinct_nontrivial": len(res["changed"]) + resb["nontrivial"],
             "rule": "E1: every G_core derivation with cost <= k (k=1: all dialects x 4 option sets; k=2: "
                     + ("every pair of operator / predicate / unary / cast / CASE constructs at expression level in the base dialect and 4 more" if quick else "all dialects") + ") round-tripped parse->generate->parse->generate; "
+                    "plus G_clauses: every subset of the optional clauses of each statement kind (" + str(len(clause_statements())) + " statements) in every dialect; "
                     "non-trivial = distinct (dialect, statement) whose generated text differs from the input (the generator "
                     "normalised something); plus every projection expression of the dialect-test SELECT statements placed into each of "
                     + str(len(CONTEXTS)) + " operator contexts in its own dialect; plus every time-format string of <= n atoms per dialect mapping checked against a "
